@@ -236,25 +236,6 @@ def applyRelocations (P : Params) (f : ElfFile) (rsec : Sec) (stream : Bytes) : 
   let st : Reloc.SymTab := ⟨← sh.getNat "sh_offset", ← sh.getNat "sh_size", ← sh.getNat "sh_entsize"⟩
   Reloc.applySectionRelocations P.env f.S f.le f.cls (P.machineArchOf (← f.header.getField "e_machine")) f.data st t stream
 
-/-- `_read_dwarf_section(section, relocate_dwarf_sections)` -/
-def readDwarfSection (P : Params) (f : ElfFile) (secs : List Sec) (sec : Sec) (relocate : Bool) : V Descr := do
-  let phantom ← liftR (hasPhantomBytes f.header)
-  let (ctype, dsize) ← liftR (sectionInfo P.env f.S f.data sec.hdr)
-  let sdata ← sectionDataWith P.X f.S f.data sec.hdr ctype dsize
-  let stream := if phantom then everyOther sdata else sdata
-  let stream ←
-    if relocate then
-      match findRelocations secs sec.name with
-      | none => pure stream
-      | some rsec =>
-        if phantom then fail .elfParseError
-        else liftR (applyRelocations P f rsec stream)
-    else pure stream
-  return { stream := stream, name := sec.name,
-           globalOffset := ← liftR (sec.hdr.getNat "sh_offset"),
-           size := if phantom then dsize / 2 else dsize,
-           address := ← liftR (sec.hdr.getNat "sh_addr") }
-
 /-! ### `_decompress_dwarf_section` (legacy GNU `.zdebug_*`) -/
 
 def decompressZdebug (X : Ext) (d : Descr) : V Descr := do
@@ -273,6 +254,30 @@ def decompressZdebug (X : Ext) (d : Descr) : V Descr := do
     if uncompressedSize ≠ out.length then fail .assertion
     else return { d with stream := out, size := out.length }
 
+/-- `_read_dwarf_section(section, relocate_dwarf_sections, legacy_compressed)`: the descriptor of the
+    (de-phantomed) section data; a legacy `.zdebug` section is decompressed; THEN relocations are
+    applied — relocation offsets refer to the uncompressed contents -/
+def readDwarfSection (P : Params) (f : ElfFile) (secs : List Sec) (sec : Sec) (relocate legacy : Bool) : V Descr := do
+  let phantom ← liftR (hasPhantomBytes f.header)
+  let (ctype, dsize) ← liftR (sectionInfo P.env f.S f.data sec.hdr)
+  let sdata ← sectionDataWith P.X f.S f.data sec.hdr ctype dsize
+  let stream := if phantom then everyOther sdata else sdata
+  let d : Descr :=
+    { stream := stream, name := sec.name,
+      globalOffset := ← liftR (sec.hdr.getNat "sh_offset"),
+      size := if phantom then dsize / 2 else dsize,
+      address := ← liftR (sec.hdr.getNat "sh_addr") }
+  let d ← if legacy then decompressZdebug P.X d else pure d
+  if relocate then
+    match findRelocations secs sec.name with
+    | none => return d
+    | some rsec =>
+      if phantom then fail .elfParseError
+      else
+        let relocated ← liftR (applyRelocations P f rsec d.stream)
+        return { d with stream := relocated }
+  else return d
+
 /-! ### the per-section loop of `get_dwarf_info` -/
 
 /-- the name a table entry is looked up under: `'.z' + x[1:]` for the renamed ones when the file
@@ -290,8 +295,7 @@ def readOne (P : Params) (f : ElfFile) (secs : List Sec) (relocate compressed : 
   match getSectionByName secs (secNameOf compressed kn) with
   | none => .ok (kn.1, none)
   | some sec => do
-    let d ← readDwarfSection P f secs sec relocate
-    let d ← if legacyOf compressed kn then decompressZdebug P.X d else pure d
+    let d ← readDwarfSection P f secs sec relocate (legacyOf compressed kn)
     return (kn.1, some d)
 
 /-- the loop, in order; the first failure ends it -/
